@@ -22,7 +22,14 @@ func (api *API) encode(ctx context.Context, value reflect.Value, ts TypeSettings
 		}
 	}
 
-	if serializable, ok := valueI.(Serializable); ok {
+	serializable, ok := valueI.(Serializable)
+	if !ok {
+		// a custom codec that is implemented on the pointer type is also used for a value that is held directly: this
+		// is what the decoder does (it uses the address of the value), and the two have to agree on the format
+		serializable, ok = addressOf(value).(Serializable)
+	}
+
+	if ok {
 		typeSettingValue := value
 		if valueType.Kind() == reflect.Interface {
 			typeSettingValue = value.Elem()
